@@ -10,6 +10,7 @@ import os, re, json
 from vlib import core
 
 LD = "-Wl,--wrap=malloc,--wrap=calloc"
+LEAKS = [True]
 
 CATALOGUE = [  # (name, TRAIN line, multi-threaded?)
     ("cover", "TRAIN cover 4096 200 8 0 0 0 100 0 0 3", False),
@@ -32,8 +33,12 @@ def build():
 def _run(exe, od, lines, name):
     sp = os.path.join(od, "fault-%s.script" % name); tp = os.path.join(od, "fault-%s.ndjson" % name)
     open(sp, "w").write("\n".join(lines) + "\n")
-    env = {"ASAN_OPTIONS": "detect_leaks=1:allocator_may_return_null=1", "TRAINDRV_HOOKS": "1"}
+    env = {"ASAN_OPTIONS": "detect_leaks=%d:allocator_may_return_null=1" % (1 if LEAKS[0] else 0), "TRAINDRV_HOOKS": "1"}
     rc, out = core.sh([exe, sp, tp], timeout=1800, env=env)
+    if LEAKS[0] and ("LeakSanitizer has encountered a fatal error" in out or "does not work under ptrace" in out):
+        LEAKS[0] = False        # the leak checker cannot run here (tracing restrictions): an infrastructure limit, not a finding
+        core.log("[trainfault] LeakSanitizer cannot run in this environment; continuing without leak detection")
+        return _run(exe, od, lines, name)
     evs = core.read_ndjson(tp) if os.path.exists(tp) else []
     return rc, out, evs, tp, env
 
@@ -108,6 +113,9 @@ def sweep(ck, pid, tier, names=None, sample=None):
                          ident="train-fault|%s|trace|%s" % (name.split("-")[0], bad.get("e")))
             pending = [x for x in pending if x > n]
     ck.cov["train_fault_positions"] = ck.cov.get("train_fault_positions", 0) + total
+    ck.cov["train_fault_leak_detection"] = bool(LEAKS[0])
+    if not LEAKS[0]:
+        ck.warn("trainer fault sweep ran without leak detection (LeakSanitizer unavailable in this environment)")
     return total
 
 
